@@ -47,10 +47,25 @@ def detection():
     return '\n'.join(out)
 
 
+def asbuilt():
+    out = ['| property | tier of the committed evidence | units (cases / states->transitions) | evaluations | oracle checks | exhaustive | wall (s, on the loaded build machine) |', '|---|---|---|---|---|---|---|']
+    for f in sorted(glob.glob(os.path.join(ROOT, 'evidence', 'C*.json'))):
+        e = json.load(open(f))
+        c = e['coverage']
+        units = []
+        for u in c.get('units', []):
+            if u.get('kind') == 'history':
+                units.append(f"{u['unit']} ({u['states']} states -> {u['transitions']} transitions, depth {u['max_depth']})")
+            else:
+                units.append(f"{u['unit']} ({u['cases']})")
+        out.append(f"| {e['property_id']} | {e['tier']} | {'; '.join(units)} | {c.get('evaluations')} | {c.get('oracle_checks')} | {c.get('exhaustive')} | {e['wall_s']} |")
+    return '\n'.join(out)
+
+
 def main():
     p = os.path.join(ROOT, 'DESIGN.md')
     s = open(p).read()
-    for key, fn in (('findings', findings), ('detection', detection)):
+    for key, fn in (('findings', findings), ('detection', detection), ('asbuilt', asbuilt)):
         b, e = f'<!-- BEGIN:{key} -->', f'<!-- END:{key} -->'
         if b in s:
             s = s[:s.index(b) + len(b)] + '\n' + fn() + '\n' + s[s.index(e):]
